@@ -205,9 +205,13 @@ def check_c04(repo, tier):
         return Finding('C04', what.split(' ')[0], fn.where, what, msg, fn.file, fn.node.lineno)
 
     for d in orders:
-        variants = [('int', 0.0), ('int', 1e-8), ('list', 1e-8), ('none', 0.0)]
+        variants = [('int', 0.0), ('int', 1e-8), ('list', 1e-8), ('none', 0.0), ('distinct', 1e-8), ('distinct-partial', 0.0)]
         for how, (capkind, thr) in itertools.product(('ortho', 'init_cores', 'init_array', 'ortho_right', 'ortho_left'), variants):
             scen = f'{how}(order={d}, max_rank={capkind}, threshold={thr})'
+            if capkind == 'distinct-partial' and (how not in ('ortho_left', 'ortho_right') or d < 3):
+                continue               # a sweep over a sub-range of the cores, every bond with its own cap
+            if capkind.startswith('distinct') and how == 'init_array':
+                continue
             entry = {'ortho': f'{TTM}.TT.ortho', 'init_cores': f'{TTM}.TT.__init__', 'init_array': f'{TTM}.TT.__init__', 'ortho_right': f'{TTM}.TT.ortho_right', 'ortho_left': f'{TTM}.TT.ortho_left'}[how]
             if how == 'init_array' and capkind == 'list':
                 continue
@@ -223,6 +227,12 @@ def check_c04(repo, tier):
                     if d == 2:
                         cap = [1, rho, 1]
                     sc.caps = {k: cap[k] for k in range(1, d) if not isinstance(cap[k], float)}
+                elif capkind.startswith('distinct'):
+                    cap = [1] + [sc.atom(f'rho{k}', free=True) for k in range(1, d)] + [1]
+                    sc.caps = {k: cap[k] for k in range(1, d)}
+                    if capkind == 'distinct-partial':
+                        # ortho_left(start..end) cuts bonds start+1..end+1, ortho_right(start..end) bonds end..start
+                        sc.caps = {k: cap[k] for k in (range(2, d) if how == 'ortho_left' else range(1, d - 1))}
                 else:
                     cap = math.inf
                     sc.caps = {}
@@ -237,6 +247,10 @@ def check_c04(repo, tier):
                 a = sc.interp.instantiate(sc.tt_cls, [cores], {})
                 if how == 'ortho':
                     return sc.method(a, 'ortho', threshold=thr, max_rank=cap)
+                if capkind == 'distinct-partial':
+                    if how == 'ortho_right':
+                        return sc.method(a, 'ortho_right', start_index=d - 2, end_index=1, threshold=thr, max_rank=cap)
+                    return sc.method(a, 'ortho_left', start_index=1, threshold=thr, max_rank=cap)
                 if how == 'ortho_right':
                     return sc.method(a, 'ortho_right', threshold=thr, max_rank=cap)
                 return sc.method(a, 'ortho_left', threshold=thr, max_rank=cap)
@@ -357,12 +371,16 @@ def check_c05(repo, tier):
         return Finding('C05', what.split(' ')[0], fn.where, what, msg, fn.file, fn.node.lineno)
     for d in orders:
         for index in range(1, d):
-            for (ol, orr), trunc, rank1 in itertools.product(((True, True), (False, True), (True, False), (False, False)), (False, True), (False, True)):
+            for (ol, orr), trunc, rank1, pre in itertools.product(((True, True), (False, True), (True, False), (False, False)), (False, True), (False, True), (False, True)):
                 if rank1 and d < 3:
                     continue
                 if tier == 'quick' and (ol, orr) != (True, True) and trunc:
                     continue
-                scen = f'svd(order={d}, index={index}, ortho_l={ol}, ortho_r={orr}, truncation={trunc}{", rank-1 bond" if rank1 else ""})'
+                if pre and ((ol and orr) or rank1):
+                    continue
+                # pre: the documented use of a switched-off sweep -- the cores that sweep would have processed are orthonormal already (declared as the
+                # isometric factor of some earlier decomposition); the factors returned for that side must then be isometries as well
+                scen = f'svd(order={d}, index={index}, ortho_l={ol}, ortho_r={orr}, truncation={trunc}{", rank-1 bond" if rank1 else ""}{", unswept side orthonormal on entry" if pre else ""})'
                 entry = f'{TTM}.TT.svd'
 
                 def body(sc):
@@ -370,6 +388,15 @@ def check_c05(repo, tier):
                     if rank1:
                         ranks = [1] + [sc.atom(f'ra{k}') if k != 1 else 1 for k in range(1, d)] + [1]
                     a = sc.tt('a', d, 'vec', ranks=ranks)
+                    if pre:
+                        from .shape import sz_prod
+                        for k, c in enumerate(a._attrs['cores']):
+                            if not ol and k < index - 1:
+                                c.tags['mx_unf'] = ((('Q', ('given', k), '', None),), sz_prod(c.shape[:-1]))
+                                c.tags['orth'] = 'LO'
+                            if not orr and k >= index:
+                                c.tags['mx_unf'] = ((('Qr', ('given', k), '', None),), c.shape[0])
+                                c.tags['orth'] = 'RO'
                     sc.inputs = (a,)
                     sc.old = list(a._attrs['cores'])
                     kw = {'threshold': 1e-8, 'max_rank': sc.atom('rho', free=True)} if trunc else {}
@@ -388,8 +415,8 @@ def check_c05(repo, tier):
                         continue
                     bad, unknown = [], []
                     uc, vc = u._attrs['cores'], v._attrs['cores']
-                    want_lo = list(range(len(uc))) if ol else [len(uc) - 1]
-                    want_ro = list(range(len(vc))) if orr else []
+                    want_lo = list(range(len(uc))) if (ol or pre) else [len(uc) - 1]
+                    want_ro = list(range(len(vc))) if (orr or pre) else []
                     for side, cs, ks, nm in (('LO', uc, want_lo, 'u'), ('RO', vc, want_ro, 'v')):
                         for k in ks:
                             iso = l2rules.core_iso(cs[k], side)
